@@ -116,6 +116,7 @@ def check_call(fx, rep):
     key_to_cellfield = {}
     arms_ok = {}
     wildcard_ok = False
+    n_wild = 0
     for m in A.nodes(nkn['body']):
         if m.get('k') != 'match':
             continue
@@ -130,12 +131,17 @@ def check_call(fx, rep):
                 rets = [n for n in A.nodes(body) if n.get('k') == 'return' or (n.get('k') == 'mcall' and n.get('method') == 'deserialize')]
                 some_v = bool(sets) and sets[0].get('args') and sets[0]['args'][0].get('k') == 'call' and sets[0]['args'][0].get('func') == 'Some'
                 for lit in lits:
-                    key_to_cellfield[lit] = sets[0]['recv'].get('member') if sets else None
-                    arms_ok[lit] = bool(consumes) and bool(cont) and not rets and some_v
+                    # every dispatch on the key counts (a second `match` in a fast path must obey the same discipline): AND over all of them
+                    cfm = sets[0]['recv'].get('member') if sets else None
+                    if lit in key_to_cellfield and key_to_cellfield[lit] != cfm:
+                        cfm = None
+                    key_to_cellfield[lit] = cfm
+                    arms_ok[lit] = arms_ok.get(lit, True) and bool(consumes) and bool(cont) and not rets and some_v
             else:
                 des = [n for n in A.nodes(body) if n.get('k') == 'mcall' and n.get('method') == 'deserialize' and A.text(n.get('recv')) == 'seed']
-                ret = [n for n in A.nodes(body) if n.get('k') == 'return']
-                wildcard_ok = bool(des) and (bool(ret) or True) and not [n for n in A.nodes(body) if n.get('k') == 'continue']
+                this_ok = bool(des) and not [n for n in A.nodes(body) if n.get('k') == 'continue']
+                wildcard_ok = this_ok if n_wild == 0 else (wildcard_ok and this_ok)
+                n_wild += 1
     fv, vmn, _ = vm[0]
     # FilterMap { G: &C_local }
     cell_of_field = {}
@@ -182,6 +188,22 @@ def check_call(fx, rep):
     nv = [x for x in fns_de if x[1]['name'] == 'next_value_seed']
     okv = bool(nv) and any(n.get('k') == 'mcall' and n.get('method') == 'next_value_seed' and A.text(n.get('recv')) == 'self.inner' for n in A.nodes(nv[0][1]['body']))
     rep.check(okv, 'R05.3', 'call|de|values-forwarded', fd, 'values of forwarded keys come from the underlying map unchanged', 'next_value_seed does not forward to the underlying map')
+    # the filter is complete only if every way of pulling an entry out of it goes through next_key_seed: serde's provided methods
+    # (next_entry_seed, next_key, next_entry ..) do - unless the impl overrides one and forwards it to the underlying map
+    impl_self = (nk[0][2] or {}).get('self_ty') if nk[0][2] else None
+    bypass = []
+    for fn_, it_, im_ in fns_de:
+        if it_['name'] in ('next_key_seed', 'next_value_seed', 'size_hint') or im_ is None or (im_.get('self_ty') != impl_self):
+            continue
+        if 'MapAccess' not in (im_.get('trait') or im_.get('of') or 'MapAccess'):
+            continue
+        inner_calls = [n.get('method') for n in A.nodes(it_['body']) if n.get('k') == 'mcall' and A.text(n.get('recv')).startswith('self.inner')]
+        if inner_calls:
+            bypass.append('%s -> inner.%s' % (it_['name'], '/'.join(sorted(set(inner_calls)))))
+    rep.check(not bypass, 'R05.3', 'call|de|no-unfiltered-entry-point', fd,
+              'the filtering map-access overrides no provided MapAccess method with a forward to the underlying map (every entry passes next_key_seed)',
+              'the filtering map-access hands out entries of the underlying map without filtering: %s (serde buffers untagged / internally tagged '
+              'method types through next_entry_seed, so their flags are swallowed as unknown members and Call::oneway() stays false)' % ', '.join(bypass))
     rep.floor('R05.1', 2 * len(flags) + 1, 'flag pairings (ser + de)')
 
 
